@@ -20,6 +20,42 @@ def setting_key(row):
     return "%d:%s" % (row["number"], row["choice"])
 
 
+IDENTITY_FIELDS = ("international_tables_number", "symbol", "full_symbol", "choice", "centering", "schoenflies", "centrosymmetric", "crystal_system", "lattice_type", "laue_class", "latt",
+                   "symbol_unicode", "sym")
+
+
+def identity_card(sg):
+    """everything a SpaceGroup object says about WHICH group it is, besides the operation list"""
+    out = {}
+    for f in IDENTITY_FIELDS:
+        try:
+            v = getattr(sg, f)
+            out[f] = v if isinstance(v, (str, int, bool, float)) else str(v)
+        except Exception as e:
+            out[f] = "raises %s" % type(e).__name__
+    try:
+        out["point_group"] = str(sg.point_group)
+    except Exception as e:
+        out["point_group"] = "raises %s" % type(e).__name__
+    return out
+
+
+def same_card(part, found, key, what, case):
+    """a group that was LOOKED UP describes itself exactly as the same setting constructed directly does"""
+    from chmpy.crystal.space_group import SpaceGroup
+
+    try:
+        want = identity_card(SpaceGroup(found.international_tables_number, choice=found.choice))
+        got = identity_card(found)
+    except Exception as e:
+        part.fail("identity-card-raise", "%s: reading the group's self-description raised %r" % (what, e), case)
+        return
+    diff = {k: (got[k], want[k]) for k in want if got[k] != want[k]}
+    if diff:
+        part.fail("identity-card:%s" % key, "%s: the group returned describes itself differently from SpaceGroup(%d, %r) constructed directly: %s"
+                  % (what, found.international_tables_number, found.choice, diff), case)
+
+
 def check_setting(part, row, table_by_number):
     from chmpy.crystal.space_group import SpaceGroup
     from chmpy.crystal.symmetry_operation import (
@@ -123,6 +159,7 @@ def check_setting(part, row, table_by_number):
     for oname, lst in (("table", full), ("reversed", full[::-1]), ("rotated", full[1:] + full[:1]), ("far-lattice-shifted", far_shifted)):
         try:
             found = SpaceGroup.from_symmetry_operations(list(lst))
+            same_card(part, found, "full", "lookup from the full list (%s order) of %s" % (oname, sk), case)
             part.trace()
             fcodes = sorted(int(s.integer_code) for s in found.symmetry_operations)
             if found.international_tables_number != n or fcodes != sorted(codes):
@@ -170,6 +207,7 @@ def check_setting(part, row, table_by_number):
         # minimality: no two reduced ops related by centring / (inversion if latt>0)
         try:
             found = SpaceGroup.from_symmetry_operations(list(red), expand_latt=latt)
+            same_card(part, found, "reduced", "LATT+SYMM lookup of %s" % sk, case)
             part.trace()
             fcodes = sorted(int(s.integer_code) for s in found.symmetry_operations)
             if found.international_tables_number != n or fcodes != sorted(codes):
